@@ -74,6 +74,12 @@ def _corpus_programs():
                                          F(4, "A", ["list", False, "obj", [["obj", [F(5, "D", I(5))]], ["obj", [F(5, "D", ["exn", 4], sh="i")]]]])]})
     ps.append({"op": "query", "fields": [F(0, "V", ["obj", [F(1, "V", I(1)), F(2, "C", I(2), lv=1)]]), F(3, "V", ["null"], nn=True, sh="in")],
                "mw": True})
+    # field arguments named like parameters of the library's / the runtimes' plumbing (`fn`: the
+    # first parameter of Runtime.submit), on resolvers of every kind
+    ps.append({"op": "query", "fields": [dict(F(0, "P", I(0)), args={"fn": 1}), dict(F(1, "C", I(1)), args={"fn": 2, "func": 3}),
+                                         dict(F(2, "S", I(2)), args={"self": 1, "args": 2}), dict(F(3, "D", I(3)), args={"kwargs": 1, "loop": 2}),
+                                         dict(F(4, "P", ["obj", [dict(F(5, "P", I(5)), args={"root": 1, "info": 2})]]), args={"ctx": 1, "callback": 2}),
+                                         dict(F(6, "A", I(6)), args={"executor": 1, "future": 2}), dict(F(7, "P", I(7), lv=1), args={"timeout": 1, "value": 2})]})
     # the family of resolver-error classes (domain constructors, keyword-only, shared instance)
     ps.append({"op": "query", "fields": [F(k, m, ["err", k], sh="i") for k, m in enumerate(["S", "P", "C", "D", "A", "C"])]
                                         + [F(6, "C", ["err", 5], sh="i"), F(7, "C", I(7))]})
